@@ -160,6 +160,8 @@ def flows(ctx, n_ds, quick):
             continue
         geoms = [g for g in geometries(rng, polys, 4) if g[0] != 'miss']
         rng.shuffle(geoms)
+        # meshes always meet the region that leaves out one cell in the middle (a face dropped with all its nodes kept)
+        geoms.sort(key=lambda g: 0 if (fam == 'ugrid' and g[0] == 'around_one_cell') else 1)
         for gi, (tag, parts) in enumerate(geoms[:((3 if fam == 'ugrid' else 2) if quick else 4)]):
             g = to_shapely(parts)
             shp = [None if p is None else __import__('shapely').Polygon(p) for p in polys]
